@@ -361,7 +361,10 @@ func (r *rpcSide) exec(c string) string {
 			}
 			p := make([]string, len(x.Locks))
 			for i, l := range x.Locks {
-				p[i] = kid(l.Key) + "," + kid(l.PrimaryLock) + "," + hx(l.LockVersion)
+				p[i] = lockInfo(l)
+				if stored, _, err := r.st.ZZDumpKey(l.Key); err != nil || stored == nil || stored.TxnSize != l.TxnSize {
+					p[i] += "!txnsize"
+				}
 			}
 			return "K[" + strings.Join(p, ";") + "]"
 		})
